@@ -42,7 +42,19 @@ def find(mod, path):
     return node
 
 
-COQTY = {"Z": "Z", "B": "bool", "L": "list Z", "O": "option Z", "Y": "Z"}
+COQTY = {"Z": "Z", "B": "bool", "L": "list Z", "O": "option Z", "Y": "Z",
+         "OL": "option (list Z)", "V": "pyval", "FH": "fh_input"}
+OPTION_OF = {"O": "Z", "OL": "L"}
+
+
+def _is_string_expr(e):
+    if isinstance(e, ast.JoinedStr):
+        return True
+    if isinstance(e, ast.Constant) and isinstance(e.value, str):
+        return True
+    if isinstance(e, ast.BinOp) and isinstance(e.op, ast.Add):
+        return _is_string_expr(e.left) and _is_string_expr(e.right)
+    return False
 BIN = {ast.Add: "+", ast.Sub: "-", ast.Mult: "*"}
 CMP = {ast.Gt: ">?", ast.GtE: ">=?", ast.Lt: "<?", ast.LtE: "<=?", ast.Eq: "=?"}
 
@@ -107,6 +119,10 @@ class Tr:
             if type(op) in CMP:
                 a, ta = self.expr(e.left, env)
                 b, tb = self.expr(e.comparators[0], env)
+                if ta == "V" and tb == "Z" and isinstance(op, ast.Lt):
+                    return "(pv_lt %s %s)" % (a, b), "B"
+                if ta == "V" and tb == "Z" and isinstance(op, ast.GtE):
+                    return "(negb (pv_lt %s %s))" % (a, b), "B"
                 self.need(ta, "Z", e)
                 self.need(tb, "Z", e)
                 return "(%s %s %s)" % (a, CMP[type(op)], b), "B"
@@ -157,9 +173,18 @@ class Tr:
             neg = isinstance(test.ops[0], ast.IsNot)
             if ty == "Y":  # the series argument is always given in our model
                 return (then_k if neg else else_k)(env)
-            self.need(ty, "O", test)
-            binder = t.strip("()").split()[-1] + "_v"
-            env_some = {k: ((binder, "Z") if v == (t, "O") else v) for k, v in env.items()}
+            if ty == "V":
+                c = "(negb (pv_is_none %s))" % t if neg else "(pv_is_none %s)" % t
+                a, ta = then_k(env)
+                b, tb = else_k(env)
+                if ta != tb:
+                    raise Unsupported("branch types differ: %s vs %s" % (ta, tb))
+                return "(if %s then %s else %s)" % (c, a, b), ta
+            if ty not in OPTION_OF:
+                raise Unsupported("`is None` on type " + ty)
+            binder = re.sub(r"[^A-Za-z0-9_]", "", t.split()[-1]) + "_v"
+            inner = OPTION_OF[ty]
+            env_some = {k: ((binder, inner) if v == (t, ty) else v) for k, v in env.items()}
             some_t, some_ty = (then_k if neg else else_k)(env_some)
             none_t, none_ty = (else_k if neg else then_k)(env)
             if some_ty != none_ty:
@@ -180,11 +205,19 @@ class Tr:
 
     # ---- statements, continuation style; result type depends on kind
     def ret_type(self):
+        if self.kind == "proc" and self.cfg.get("final"):
+            return "R" + self.cfg["state"][self.cfg["final"]]
         return {"fun": self.cfg.get("ret", "Z"), "rfun": "R" + self.cfg.get("ret", "Z"),
                 "proc": "RU", "gen": "LP", "rgen": "RLP"}[self.kind]
 
-    def finish(self):
+    def finish(self, env=None):
         k = self.kind
+        if k == "proc" and self.cfg.get("final"):
+            t, ty = env[self.cfg["final"]]
+            want = self.cfg["state"][self.cfg["final"]]
+            if ty != want and OPTION_OF.get(want) == ty:
+                t, ty = "(Some %s)" % t, want
+            return "(Ok %s)" % t, "R" + ty
         if k == "proc":
             return "(Ok tt)", "RU"
         if k == "gen":
@@ -195,14 +228,36 @@ class Tr:
 
     def block(self, stmts, env):
         if not stmts:
-            return self.finish()
+            return self.finish(env)
         s, rest = stmts[0], stmts[1:]
+        if isinstance(s, ast.Pass):
+            return self.block(rest, env)
+        if isinstance(s, ast.Assign) and _is_string_expr(s.value):
+            return self.block(rest, env)  # message text, only used inside `raise`
+        if isinstance(s, ast.Assign) and len(s.targets) == 1 \
+                and isinstance(s.targets[0], ast.Attribute) \
+                and ast.unparse(s.targets[0]) in self.cfg.get("state", ()):
+            # assignment to a configured state attribute, e.g. `self._fh = fh`
+            key = ast.unparse(s.targets[0])
+            t, ty = self.expr(s.value, env)
+            want = self.cfg["state"][key]
+            if ty != want and OPTION_OF.get(want) == ty:
+                t, ty = "(Some %s)" % t, want
+            self.need(ty, want, s)
+            env2 = dict(env)
+            env2[key] = (t, ty)
+            return self.block(rest, env2)
         if isinstance(s, ast.Expr) and isinstance(s.value, ast.Constant) \
                 and isinstance(s.value.value, str):
             return self.block(rest, env)
         if isinstance(s, ast.Assign) and len(s.targets) == 1 and isinstance(s.targets[0], ast.Name):
             v = s.targets[0].id
             t, ty = self.expr(s.value, env)
+            if ty in ("RZ", "RL", "RV") and self.kind in ("rfun", "proc", "rgen"):
+                env2 = dict(env)
+                env2[v] = (cname(v), ty[1:])
+                body, bty = self.block(rest, env2)
+                return "(match %s with Err => Err | Ok %s => %s end)" % (t, cname(v), body), bty
             if ty in ("RLP", "LP", "RU", "P"):
                 raise Unsupported("assignment of type " + ty)
             env2 = dict(env)
@@ -394,6 +449,7 @@ def translate_function(mod, cfg, calls):
     sig = " ".join("(%s : %s)" % (c, cfg.get("coqtypes", {}).get(c, COQTY.get(t, t)))
                    for c, t in seen)
     rty = {"Z": "Z", "B": "bool", "L": "list Z", "RZ": "res Z", "RL": "res (list Z)",
+           "V": "pyval", "RV": "res pyval", "ROL": "res (option (list Z))",
            "RU": "res unit", "LP": "list (list Z * list Z)",
            "RLP": "res (list (list Z * list Z))"}[tr.ret_type()]
     return "Definition %s %s : %s :=\n  %s.\n" % (cfg["coq"], sig, rty, body)
